@@ -25,6 +25,8 @@ APPENDS = [
     ("src/unsync/cache.rs", "verif_unsync", "unsync_cache.rs"),
     ("src/unsync/builder.rs", "verif_unsync_builder", "unsync_builder.rs"),
     ("src/common/concurrent/housekeeper.rs", "verif_housekeeper", "housekeeper.rs"),
+    ("src/common/concurrent/atomic_time.rs", "verif_atomic_time", "atomic_time.rs"),
+    ("src/common/concurrent/entry_info.rs", "verif_entry_info", "entry_info.rs"),
     ("src/common/concurrent/deques.rs", "verif_cdeques", "concurrent_deques.rs"),
     ("src/sync/base_cache.rs", "verif_sync", "sync_base_cache.rs"),
     ("src/sync/cache.rs", "verif_sync_cache", "sync_cache.rs"),
@@ -54,6 +56,10 @@ def make_scratch(repo, verif, scratch):
             raise OverlayError(f"overlay: {rel} missing in the repository")
         with open(p, "a") as f:
             f.write(f'\n#[cfg(kani)]\n#[path = "{h}"]\npub(crate) mod {mod};\n')
+    # many #[kani::stub] attributes per harness need a deeper macro recursion limit
+    lp = os.path.join(src, "src/lib.rs")
+    body = open(lp).read()
+    open(lp, "w").write('#![cfg_attr(kani, recursion_limit = "1024")]\n' + body)
     # container models
     with open(os.path.join(src, "src/lib.rs"), "a") as f:
         f.write('\n#[cfg(kani)]\npub(crate) mod verif_models {\n'
@@ -79,10 +85,20 @@ def make_scratch(repo, verif, scratch):
     open(p, "w").write(s)
     # third-party container models for the sync cache
     patches = []
+    lock = open(os.path.join(src, "Cargo.lock")).read() if os.path.exists(os.path.join(src, "Cargo.lock")) else ""
     for crate in ("dashmap", "crossbeam-channel"):
         d = os.path.join(mdir, crate)
         if os.path.isdir(d):
-            patches.append(f'{crate} = {{ path = "{d}" }}')
+            # the model must carry exactly the locked version, or cargo ignores the patch
+            m = re.search(r'name = "%s"\nversion = "([^"]+)"' % re.escape(crate), lock)
+            dst = os.path.join(scratch, "models", crate)
+            shutil.copytree(d, dst, dirs_exist_ok=True)
+            if m:
+                ct = os.path.join(dst, "Cargo.toml")
+                t = open(ct).read()
+                t = re.sub(r'(?m)^version = "[^"]+"', f'version = "{m.group(1)}"', t, count=1)
+                open(ct, "w").write(t)
+            patches.append(f'{crate} = {{ path = "{dst}" }}')
     os.makedirs(os.path.join(src, ".cargo"), exist_ok=True)
     with open(os.path.join(src, ".cargo/config.toml"), "w") as f:
         f.write("[net]\noffline = true\n")
